@@ -24,26 +24,3 @@ Proof.
   apply orb_true_iff in H as [H|H]; [rewrite H; reflexivity|]. rewrite (IH ts) by (try lia; exact H). apply orb_true_r.
 Qed.
 
-Definition slot_ok (ps : list spattern) (slot : spattern * src) : Prop :=
-  match snd slot with
-  | SZero => True                                        (* reads zeros *)
-  | SOp k => disabledb (fst slot) = true \/
-             exists p, nth_error ps k = Some p /\ sp_ub (fst slot) = sp_ub p /\ sp_ts (fst slot) = sp_ts p /\
-                       (sp_ss (fst slot) = sp_ss p \/ sp_ss (fst slot) = [8; 64])
-  end.
-
-Theorem gemmx_customise_sound :
-  forall k ser sd2 ps out, gemmx_customise k ser sd2 ps = Some out ->
-  List.length out = 5%nat /\ Forall (slot_ok ps) out /\
-  (* every operand of the op is streamed by exactly one enabled-or-original slot *)
-  forall i p, nth_error ps i = Some p ->
-    exists q, In (q, SOp i) out /\ sp_ub q = sp_ub p /\ sp_ts q = sp_ts p.
-Proof.
-  intros k ser sd2 ps out H. unfold gemmx_customise in H.
-  destruct k; destruct ps as [|a [|b [|c [|d [|e r]]]]]; try discriminate; inversion H; subst out; clear H;
-    (split; [reflexivity|]); (split; [repeat constructor; unfold slot_ok; cbn [fst snd nth_error]; try tauto;
-       try (left; reflexivity); try (right; eexists; repeat split; try reflexivity; tauto)|]);
-    intros i p Hi; destruct i as [|[|[|[|i]]]]; cbn [nth_error] in Hi; try discriminate; inversion Hi; subst;
-    try (destruct i; discriminate);
-    eexists; (split; [cbn [In]; eauto 8|split; reflexivity]).
-Qed.
